@@ -7,6 +7,7 @@ CONSTANTS
   FixDrift = TRUE
   WithEnv = FALSE
   FsExact = TRUE
+  EarlyVerify = FALSE
   ILen <- MCILen
   MaxLen = 36
 INVARIANT Emit
